@@ -4,7 +4,7 @@ import math
 import copy
 
 from sim.core import Violation, Inconclusive, RandomProxy, patched_random, close
-from sim.models import gen_mdp_spec, MDPView, make_mdp
+from sim.models import gen_mdp_spec, MDPView, make_mdp, sibling_mdp_spec
 from sim.refsolve import game_W
 from sim.ctx import RunCtx, make_scheduler, gen_sched
 from sim import shrink as shr
@@ -42,12 +42,13 @@ def gen_case(rng, tier, idx):
                      dict(kind='fn', base=rng.choice((0.0, -1.0, 1.0)), spread=0.25)))
     cfg = dict(learner=rng.choice(LEARNERS), episodes=rng.randint(1, 6), step_size=rng.choice((0, 0.1, 0.5, 1.0, 0.3)),
                rand_choose=rng.choice((0, 0.0, 0.1, 0.5, 1.0)), softmax_temp=temp, q0=q0, seed=rng.choice((0, 1, 7, 12345)),
-               reentrant=rng.random() < 0.25)
+               reentrant=rng.random() < 0.25, reuse=rng.randrange(1000) if rng.random() < 0.15 else None)
     plain = idx % 4 == 0     # fault-free baseline quarter
     sched = gen_sched(rng, ('P',) if plain else ('P', 'U', 'R', 'X'), thresholds=(0.5, float(cfg['rand_choose'])))
     if plain:
         sched['budget'] = rng.choice((200, 1000))
         cfg['reentrant'] = False
+        cfg['reuse'] = None
     return dict(spec=spec, cfg=cfg, sched=sched)
 
 
@@ -67,7 +68,7 @@ def execute(case, script=None):
     ctx = RunCtx(PROP, view)
     ctx.W = game_W(view)
     ctx.declare_probes('episode_from_absorbing_start', 'bootstrap_from_absorbing', 'argmax_tie',
-                       'listener_reentry', 'step_size_one')
+                       'listener_reentry', 'step_size_one', 'learner_reused')
     sched = make_scheduler(case, script, ctx)
     try:
         return _execute(td, view, cfg, ctx, sched)
@@ -100,7 +101,7 @@ def _execute(td, view, cfg, ctx, sched):
             Qt[s] = init_row(s)
         return Qt[s]
 
-    state = dict(ep=0, prev=None, t=0)
+    state = dict(ep=0, prev=None, t=0, main=True)
 
     def softmax_eps(qn):
         if temp == 0.0:
@@ -120,6 +121,8 @@ def _execute(td, view, cfg, ctx, sched):
             pass
 
         def end_of_timestep(self, lv):
+            if not state['main']:
+                return
             ctx.steps += 1
             try:
                 s, a, ns, r = sid[lv['s']], aid[lv['a']], sid[lv['ns']], lv['r']
@@ -202,6 +205,8 @@ def _execute(td, view, cfg, ctx, sched):
                 mdp.initial_state_dist()
 
         def end_of_episode(self, lv):
+            if not state['main']:
+                return
             if state['prev'] is None:
                 ctx.probe('episode_from_absorbing_start')
             else:
@@ -218,7 +223,19 @@ def _execute(td, view, cfg, ctx, sched):
                   initial_q=q0arg, seed=cfg['seed'], event_listener_class=L)
     with patched_random([td], proxy):
         try:
-            res = cls(**kwargs).train_on(mdp)
+            learner = cls(**kwargs)
+            sib = sibling_mdp_spec(view.spec, cfg['reuse']) if cfg.get('reuse') is not None else None
+            if sib is not None:
+                # fault F5: the same learner object is first trained on a sibling problem (same keys, one more absorbing state)
+                sched.fire('F5_object_reuse')
+                ctx.probe('learner_reused')
+                state['main'] = False
+                sview = MDPView(sib)
+                W0, ctx.W = ctx.W, game_W(sview)
+                learner.train_on(make_mdp(sview, ctx))
+                ctx.W = W0
+                state['main'] = True
+            res = learner.train_on(mdp)
         except (Violation, Inconclusive):
             raise
         except Exception as e:
@@ -287,6 +304,7 @@ def shrink(case):
     yield from shr.config_candidates(case, {
         ('cfg', 'episodes'): [1, 2, 3],
         ('cfg', 'reentrant'): [False],
+        ('cfg', 'reuse'): [None],
         ('cfg', 'rand_choose'): [0],
         ('cfg', 'softmax_temp'): [0.0],
         ('cfg', 'step_size'): [1.0, 0.5],
